@@ -385,9 +385,11 @@ impl<'a> Walk<'a> {
 
         // Skip already visited paths. We're checking only when follow_links is true,
         // because inserting into a shared hash map is costly.
-        // A directory is marked in `visit_dir`, only when it is really going to be read.
+        // A directory is marked in `visit_dir` and a link in `visit_link`, only when they are
+        // really going to be read or followed: whether they are depends on the input path
+        // that has led here (its device, with `--one-fs`).
         if self.follow_links
-            && entry.tpe != EntryType::Dir
+            && entry.tpe == EntryType::File
             && !self.mark_visited(&entry.path, entry.tpe, level, &gitignore, state)
         {
             return;
@@ -459,12 +461,24 @@ impl<'a> Walk<'a> {
             match self.resolve_link(&path) {
                 Ok((target, EntryType::File)) if self.report_links => {
                     // the link is reported with the identity and the data of its target
-                    if !self.one_fs || self.same_fs(&target, dev) {
+                    if (!self.one_fs || self.same_fs(&target, dev))
+                        && (!self.follow_links
+                            || self.mark_visited(
+                                &path,
+                                EntryType::SymLink,
+                                level,
+                                &gitignore,
+                                state,
+                            ))
+                    {
                         self.visit_file(path, state)
                     }
                 }
                 Ok((target, _)) => {
-                    if self.follow_links && (!self.one_fs || self.same_fs(&target, dev)) {
+                    if self.follow_links
+                        && (!self.one_fs || self.same_fs(&target, dev))
+                        && self.mark_visited(&path, EntryType::SymLink, level, &gitignore, state)
+                    {
                         let gitignore = gitignore.through_link();
                         self.visit_path(target, dev, scope, level, gitignore, state);
                     }
